@@ -37,7 +37,10 @@ def chain_fields(b, l, depth=0):
     elif d.get("k") == "call":
         t = d["t"]
         cp = callee_path(t) or ""
-        if cp.endswith(("Deref>::deref", "AsRef<T>>::as_ref", "AsRef<str>>::as_ref", "String::as_str", "<impl str>::trim", "Borrow<T>>::borrow")) and t["args"] \
+        if cp.endswith(("Deref>::deref", "AsRef<T>>::as_ref", "AsRef<str>>::as_ref", "String::as_str", "<impl str>::trim", "Borrow<T>>::borrow",
+                        # text derived from the token text by deleting / trimming characters is still the user's digits (and may be empty)
+                        "<impl str>::replace", "<impl str>::trim_start_matches", "<impl str>::trim_end_matches", "<impl str>::trim_matches",
+                        "<impl str>::trim_start", "<impl str>::trim_end", "ToOwned>::to_owned", "ToString>::to_string", "<impl str>::to_string", "<impl str>::to_owned")) and t["args"] \
                 and t["args"][0].get("k") in ("copy", "move"):
             a = t["args"][0]["pl"]
             for pr in a["p"]:
@@ -111,7 +114,7 @@ def pan2(ctx):
             if bad and armed:
                 r.inst("%s: token digits -> parse::<%s> -> %s" % (fn, ty, bad[0]), short_loc(t["loc"]), "report")
                 r.report("PAN-2|%s|parse::<%s>|%s|#%d" % (b.path, ty, bad[0], ordinal), short_loc(t["loc"]), b.path,
-                         "digits of the rule text are parsed as %s and the Result is %s()ed: a literal that does not fit (e.g. 20 digits) panics" % (ty, bad[0]))
+                         "digits of the rule text are parsed as %s and the Result is %s()ed: a literal that does not fit (e.g. 20 digits), or that is empty once its zeros are stripped (`[tone: 0]`), panics" % (ty, bad[0]))
             else:
                 r.inst("%s: token digits -> parse::<%s> -> %s" % (fn, ty, names or "?"), short_loc(t["loc"]), "ok")
     r.analysed = {"parse_sites": n, "armed": armed}
